@@ -31,6 +31,16 @@ fn draw_both<C: Col, T: ImageDrawable<Color = C>>(t: &T, mode: i64, at: Point) -
     json!({"size": [size.width, size.height], "native": nat.calls, "dflt": default_calls(&dfl.calls)})
 }
 
+/// draw `t` through an `Image` on the draining target seen through `.clipped(clip)`: the adapter crops the
+/// colour stream with `Iterator::nth` (src/iterator/contiguous.rs), i.e. it SEEKS in the image's colour iterator
+fn draw_clipped<C: Col, T: ImageDrawable<Color = C>>(t: &T, mode: i64, at: Point, clip: &Rectangle) -> Value {
+    let size = t.size();
+    let image = if mode == 0 { Image::new(t, at) } else { Image::with_center(t, at) };
+    let mut nat = Drain::<C>::new();
+    image.draw(&mut nat.clipped(clip)).unwrap();
+    json!({"size": [size.width, size.height], "native": nat.calls})
+}
+
 fn bytes_per_row(w: usize, bpp: usize) -> usize {
     (w * bpp + 7) / 8
 }
@@ -108,6 +118,23 @@ where
         let areas: Vec<Rectangle> = dr["areas"].as_array().unwrap().iter().map(rect_from).collect();
         let mode = i(&dr["mode"]);
         let at = pt_from(&dr["at"]);
+        if let Some(c) = dr.get("clip") {
+            let clip = rect_from(c);
+            let r = catch(|| match areas.len() {
+                0 => draw_clipped(&raw, mode, at, &clip),
+                1 => draw_clipped(&raw.sub_image(&areas[0]), mode, at, &clip),
+                2 => draw_clipped(&raw.sub_image(&areas[0]).sub_image(&areas[1]), mode, at, &clip),
+                n => panic!("harness: chain length {} not supported with a clip", n),
+            });
+            match r {
+                Ok(o) => rec.ev("cdraw", json!({"areas": dr["areas"], "mode": mode, "at": dr["at"], "clip": c, "size": o["size"], "native": o["native"]})),
+                Err(pn) => {
+                    rec.note("panicked_draws");
+                    rec.ev("panic", json!({"msg": pn.msg, "loc": pn.loc}));
+                }
+            }
+            continue;
+        }
         let r = catch(|| match areas.len() {
             0 => draw_both(&raw, mode, at),
             1 => draw_both(&raw.sub_image(&areas[0]), mode, at),
@@ -128,7 +155,51 @@ where
     }
 }
 
+/// ImageRaw::new on sizes whose required length is astronomically large, with short buffers: must be a plain Err
+/// (or Ok for len 0 when a side is zero).  Sizes are recorded as 16-bit halves (TLC integers are 32 bit).
+fn run_huge<C, O>(rec: &mut Rec, d: &Value)
+where
+    C: Col,
+    O: DataOrder,
+    for<'a> RawDataSlice<'a, C::Raw, O>: IntoIterator<Item = C::Raw>,
+{
+    rec.begin(d.clone());
+    let m = u32::MAX;
+    let sizes: [(u32, u32); 16] = [(m, m), (1 << 31, 1 << 31), (178_956_971, 1), (1 << 29, 1), (1 << 30, 2), (m, 1), (1, m), (0, m), (m, 0),
+        (65536, 65536), (536_870_912, 8), (134_217_728, 1), (268_435_456, 1), (4097, 1), (3, 4097), (1_431_655_766, 3)];
+    let mut items = vec![];
+    for (w, h) in sizes {
+        for len in [0usize, 1, 2, 3, 4, 8, 16, 64] {
+            let data = vec![0x5au8; len];
+            match catch(|| ImageRaw::<C, O>::new(&data, Size::new(w, h)).is_ok()) {
+                Ok(acc) => items.push(json!([w >> 16, w & 0xffff, h >> 16, h & 0xffff, len, acc as i32])),
+                Err(pn) => {
+                    rec.note("panicked_new");
+                    rec.ev("panic", json!({"msg": format!("ImageRaw::new(len {}, {}x{}): {}", len, w, h, pn.msg), "loc": pn.loc}));
+                }
+            }
+        }
+    }
+    rec.nontrivial();
+    rec.ev("hugenew", json!({"bpp": i(&d["bpp"]), "items": items}));
+}
+
 fn run_case(rec: &mut Rec, d: &Value) {
+    if d["k"].as_str() == Some("huge") {
+        type LE = LittleEndianMsb0;
+        type BE = BigEndianLsb0;
+        return match (i(&d["bpp"]), i(&d["ord"])) {
+            (1, 0) => run_huge::<BinaryColor, LE>(rec, d),
+            (2, 1) => run_huge::<Gray2, BE>(rec, d),
+            (4, 0) => run_huge::<Gray4, LE>(rec, d),
+            (8, 1) => run_huge::<Gray8, BE>(rec, d),
+            (16, 0) => run_huge::<Rgb565, LE>(rec, d),
+            (24, 1) => run_huge::<Rgb888, BE>(rec, d),
+            (24, 0) => run_huge::<Rgb888, LE>(rec, d),
+            (32, 0) => run_huge::<C32, LE>(rec, d),
+            f => panic!("unknown huge format {:?}", f),
+        };
+    }
     assert_eq!(d["k"].as_str(), Some("img"), "unknown case kind");
     type LE = LittleEndianMsb0;
     type BE = BigEndianLsb0;
@@ -219,6 +290,23 @@ fn main() {
                                 draws.push(draw_json(&[*a, b], (j % 2) as i64, (j as i32 - 1, 2 - j as i32)));
                             }
                         }
+                        // through `.clipped(clip)`: clips that cut rows off the top (the crop seeks over several
+                        // row gaps at once), columns off either side (a seek per row), the bottom, everything
+                        if pat == 2 || (w + h) % 2 == 0 {
+                            let (x0, y0) = (-3, 2);
+                            let clips = [[x0 + 1, y0 + 2, w, h], [x0 - 1, y0 + 1, w, h], [x0 + w / 2, y0 + 3, w, 1], [x0, y0 - 1, (w - 1).max(0), h],
+                                         [x0 + 1, y0 + 2, (w - 2).max(0), 2], [x0 + w, y0, 2, 2], [x0 - 5, y0 - 5, w + 10, h + 10]];
+                            for (k, c) in clips.iter().enumerate() {
+                                let mut dj = draw_json(&[], 0, (x0, y0));
+                                dj["clip"] = json!(c);
+                                draws.push(dj);
+                                // the same through a sub-image that is narrower than its parent (row gap = parent pixels)
+                                let a = set[[1usize, 3, 11, 2, 5][(k + rot) % 5]];
+                                let mut dj = draw_json(&[a], 0, (x0, y0));
+                                dj["clip"] = json!(c);
+                                draws.push(dj);
+                            }
+                        }
                         let d = json!({"k":"img","bpp":bpp,"ord":ord,"w":w,"h":h,"pat":pat,
                                        "seed": (args.seed.wrapping_mul(1000003) ^ ((w as u64) << 20 | (h as u64) << 10 | bpp as u64)) & 0x7fff_ffff,
                                        "probe":1,"draws":draws});
@@ -227,6 +315,10 @@ fn main() {
                 }
             }
         }
+    }
+    // ImageRaw::new on huge sizes
+    for (bpp, ord) in [(1, 0), (2, 1), (4, 0), (8, 1), (16, 0), (24, 1), (24, 0), (32, 0)] {
+        run_case(&mut rec, &json!({"k":"huge","bpp":bpp,"ord":ord}));
     }
     // seeded part: random sizes, random chains (depth <= 3), random data, with_center in all parities
     let (n, smax_w, smax_h) = if args.thorough() { (100_000, 33, 9) } else { (3_000, 12, 6) };
@@ -251,7 +343,13 @@ fn main() {
                 ph = s.1;
                 areas.push(a);
             }
-            draws.push(draw_json(&areas, rng.i32(0, 1) as i64, (rng.i32(-9, 9), rng.i32(-9, 9))));
+            let at = (rng.i32(-9, 9), rng.i32(-9, 9));
+            let mut dj = draw_json(&areas, rng.i32(0, 1) as i64, at);
+            if areas.len() <= 2 && rng.chance(1, 3) {
+                dj["mode"] = json!(0);
+                dj["clip"] = json!([at.0 + rng.i32(-2, pw), at.1 + rng.i32(-2, ph), rng.i32(0, pw + 2), rng.i32(0, ph + 2)]);
+            }
+            draws.push(dj);
         }
         let d = json!({"k":"img","bpp":bpp,"ord":ord,"w":w,"h":h,"pat":2,"seed":rng.u32() >> 1,"probe":rng.i32(0, 1),"draws":draws});
         run_case(&mut rec, &d);
